@@ -18,6 +18,8 @@ def profile(draw, n_min=2, n_max=5, max_ballots=60):
     n = draw(st.integers(n_min, n_max))
     # letters, or numeric identifiers that concatenate ambiguously ('1'+'2' == '12')
     cands = (CANDS if draw(st.integers(0, 2)) else ["1", "12", "2", "21", "11", "112", "121"])[:n]
+    if draw(st.integers(0, 5)) == 0:
+        cands = list(range(n))   # candidates numbered 0..n-1 as integers (0 is a candidate like any other)
     shape = draw(st.sampled_from(["decisive", "decisive", "mixed", "tie", "tiny"]))
     # some ballots also rank an identifier that is not a candidate of the contest (a write-in, a withdrawn candidate):
     # the shipped .raire reader keeps each candidate's position in the FULL preference list, so the generator-side
@@ -56,7 +58,7 @@ def profile(draw, n_min=2, n_max=5, max_ballots=60):
     ballots = [b for b, _ in ballots]
     # the records may reach the generator through its own reader of the RAIRE file format (then a ballot may also name a
     # candidate again further down, which means nothing)
-    via_file = draw(st.integers(0, 3)) == 0
+    via_file = draw(st.integers(0, 3)) == 0 and isinstance(cands[0], str)
     repeats = {}
     if via_file:
         for i, b in enumerate(ballots):
